@@ -479,7 +479,47 @@ func evalC05Wide(c c05Wide) *Failure {
 	return nil
 }
 
+// c05Order: the handlers are installed in one of the possible orders; AUTH reaches the handler installed with
+// SetAuthCommandHandler and data commands the one installed with SetCommandHandler, whatever the order.
+type c05Order struct {
+	Order []string `json:"order"` // auth | command, in the order of the Set... calls
+}
+
+func evalC05Order(c c05Order) *Failure {
+	srv := redis.NewServer()
+	authRec, cmdRec := doubles.NewRecorder(), doubles.NewRecorder()
+	for _, o := range c.Order {
+		if o == "auth" {
+			srv.SetAuthCommandHandler(authRec)
+		} else {
+			srv.SetCommandHandler(cmdRec)
+		}
+	}
+	data, _ := encodeReqs([][]resp.Bin{cmd("AUTH", "secret"), cmd("GET", "k"), cmd("AUTH", "user", "secret")})
+	conn := connsim.NewPreloaded(1, [][]byte{data})
+	o := connsim.Serve(srv, conn, serveTimeout())
+	what := fmt.Sprintf("handlers installed in the order %v", c.Order)
+	if o.TimedOut {
+		return stallFailure("c05|order", what)
+	}
+	if o.Panic != nil {
+		return failf("c05|panic|"+panicKey(o), "%s: panic: %v", what, o.Panic)
+	}
+	var a, d []string
+	for _, cl := range authRec.Snapshot() {
+		a = append(a, callStr(cl))
+	}
+	for _, cl := range cmdRec.Snapshot() {
+		d = append(d, callStr(cl))
+	}
+	if len(a) != 2 || len(d) != 1 {
+		return failf("c05|handler-order", "%s: the AUTH handler received %v, the command handler %v; want two AUTH calls on the first and the GET on the second", what, a, d)
+	}
+	return nil
+}
+
 func init() {
+	register("c05.order", evalC05Order)
 	register("c05.wide", evalC05Wide)
 	register("c05.cmd", evalC05)
 	register("c05.unknown", evalC05Unknown)
@@ -562,6 +602,14 @@ func TestC05(t *testing.T) {
 			}
 			h.Fail(rt, "c05.cmd", c, evalC05(c))
 		})
+	}
+
+	if h.Shard == 0 {
+		for _, order := range [][]string{{"auth", "command"}, {"command", "auth"}, {"auth", "command", "auth"}, {"command", "auth", "command"}} {
+			c := c05Order{Order: order}
+			h.Col.Case(true, []byte(fmt.Sprint("order", order)), "handler-installation-order")
+			h.Report("c05.order", c, evalC05Order(c))
+		}
 	}
 
 	h.Rapid("wide", h.N(80, 3000), func(rt *rapid.T) {
